@@ -85,6 +85,325 @@ theorem C12_pystate_sep (S : Bytes → Prop) (hS : InjOn sha S) (s t : Str)
   simp only [statePythonNode, hashValue, HV.render] at h
   exact hne (sha_utf8_inj sha hS hs ht h)
 
+/-! ## signatures: equality ⇔ identity, per node kind -/
+
+/-- **sig_iff (PathNode).** Two `PathNode`s have the same signature iff they have the same path
+(the name is not part of the identity). -/
+theorem C12_sig_iff_pathnode (S : Bytes → Prop) (hS : InjOn sha S) (n₁ p₁ n₂ p₂ : Str)
+    (c₁ : SigCovers sha S Generated.sigPathNodeFields (envPathNode n₁ p₁))
+    (c₂ : SigCovers sha S Generated.sigPathNodeFields (envPathNode n₂ p₂)) :
+    sigPathNode sha n₁ p₁ = sigPathNode sha n₂ p₂ ↔ p₁ = p₂ := by
+  constructor
+  · intro h
+    simp only [sigPathNode, sigOf] at h
+    have hr := utf8_inj (hS _ _ c₁.2 c₂.2 h)
+    rw [rawKey_pathnode, rawKey_pathnode] at hr
+    have k₁ := c₁.1 "path" (by simp [Generated.sigPathNodeFields])
+    have k₂ := c₂.1 "path" (by simp [Generated.sigPathNodeFields])
+    simp only [envPathNode, if_true, Covers] at k₁ k₂
+    exact sha_utf8_inj sha hS k₁ k₂ hr
+  · rintro rfl
+    simp only [sigPathNode, sigOf, rawKey_pathnode]
+
+/-- **sig_iff (PickleNode).** Same path ⇔ same signature. -/
+theorem C12_sig_iff_picklenode (S : Bytes → Prop) (hS : InjOn sha S) (n₁ p₁ n₂ p₂ : Str)
+    (c₁ : SigCovers sha S Generated.sigPickleNodeFields (envPathNode n₁ p₁))
+    (c₂ : SigCovers sha S Generated.sigPickleNodeFields (envPathNode n₂ p₂)) :
+    sigPickleNode sha n₁ p₁ = sigPickleNode sha n₂ p₂ ↔ p₁ = p₂ := by
+  constructor
+  · intro h
+    simp only [sigPickleNode, sigOf] at h
+    have hr := utf8_inj (hS _ _ c₁.2 c₂.2 h)
+    rw [rawKey_picklenode, rawKey_picklenode] at hr
+    have k₁ := c₁.1 "path" (by simp [Generated.sigPickleNodeFields])
+    have k₂ := c₂.1 "path" (by simp [Generated.sigPickleNodeFields])
+    simp only [envPathNode, if_true, Covers] at k₁ k₂
+    exact sha_utf8_inj sha hS k₁ k₂ hr
+  · rintro rfl
+    simp only [sigPickleNode, sigOf, rawKey_picklenode]
+
+/-- A `PathNode` and a `PickleNode` on one path are one DAG node (one file). -/
+theorem C12_sig_path_pickle (n₁ n₂ p : Str) : sigPathNode sha n₁ p = sigPickleNode sha n₂ p := by
+  simp only [sigPathNode, sigPickleNode, sigOf, rawKey_pathnode, rawKey_picklenode]
+
+/-- **sig_iff (TaskWithoutPath).** Same name ⇔ same signature. -/
+theorem C12_sig_iff_taskwithoutpath (S : Bytes → Prop) (hS : InjOn sha S) (n₁ n₂ : Str)
+    (c₁ : SigCovers sha S Generated.sigTaskWithoutPathFields (envTaskWithoutPath n₁))
+    (c₂ : SigCovers sha S Generated.sigTaskWithoutPathFields (envTaskWithoutPath n₂)) :
+    sigTaskWithoutPath sha n₁ = sigTaskWithoutPath sha n₂ ↔ n₁ = n₂ := by
+  constructor
+  · intro h
+    simp only [sigTaskWithoutPath, sigOf] at h
+    have hr := utf8_inj (hS _ _ c₁.2 c₂.2 h)
+    rw [rawKey_taskw, rawKey_taskw] at hr
+    have k₁ := c₁.1 "name" (by simp [Generated.sigTaskWithoutPathFields])
+    have k₂ := c₂.1 "name" (by simp [Generated.sigTaskWithoutPathFields])
+    simp only [envTaskWithoutPath, if_true, Covers] at k₁ k₂
+    exact sha_utf8_inj sha hS k₁ k₂ hr
+  · rintro rfl; rfl
+
+/-- **sig_iff (Task).** Same (base name, module path) ⇔ same signature. -/
+theorem C12_sig_iff_task (hlen : ∀ b, (sha b).length = 64) (S : Bytes → Prop) (hS : InjOn sha S)
+    (b₁ p₁ b₂ p₂ : Str)
+    (c₁ : SigCovers sha S Generated.sigTaskFields (envTask b₁ p₁))
+    (c₂ : SigCovers sha S Generated.sigTaskFields (envTask b₂ p₂)) :
+    sigTask sha b₁ p₁ = sigTask sha b₂ p₂ ↔ b₁ = b₂ ∧ p₁ = p₂ := by
+  constructor
+  · intro h
+    simp only [sigTask, sigOf] at h
+    have hr := utf8_inj (hS _ _ c₁.2 c₂.2 h)
+    rw [rawKey_task, rawKey_task] at hr
+    obtain ⟨e₁, e₂⟩ := List.append_inj hr (by rw [hlen, hlen])
+    have k₁ := c₁.1 "base_name" (by simp [Generated.sigTaskFields])
+    have k₂ := c₂.1 "base_name" (by simp [Generated.sigTaskFields])
+    have l₁ := c₁.1 "path" (by simp [Generated.sigTaskFields])
+    have l₂ := c₂.1 "path" (by simp [Generated.sigTaskFields])
+    simp [envTask, Covers] at k₁ k₂ l₁ l₂
+    exact ⟨sha_utf8_inj sha hS k₁ k₂ e₁, sha_utf8_inj sha hS l₁ l₂ e₂⟩
+  · rintro ⟨rfl, rfl⟩; rfl
+
+/-- **sig_iff (DirectoryNode).** Same (root_dir, pattern) ⇔ same signature; `root_dir = None` is told
+apart from every path. -/
+theorem C12_sig_iff_dirnode (hlen : ∀ b, (sha b).length = 64) (S : Bytes → Prop) (hS : InjOn sha S)
+    (n₁ n₂ : Str) (r₁ r₂ : Option Str) (q₁ q₂ : Str)
+    (c₁ : SigCovers sha S Generated.sigDirNodeFields (envDirNode n₁ r₁ q₁))
+    (c₂ : SigCovers sha S Generated.sigDirNodeFields (envDirNode n₂ r₂ q₂)) :
+    sigDirNode sha n₁ r₁ q₁ = sigDirNode sha n₂ r₂ q₂ ↔ r₁ = r₂ ∧ q₁ = q₂ := by
+  constructor
+  · intro h
+    simp only [sigDirNode, sigOf] at h
+    have hr := utf8_inj (hS _ _ c₁.2 c₂.2 h)
+    rw [rawKey_dirnode, rawKey_dirnode] at hr
+    obtain ⟨e₁, e₂⟩ := List.append_inj' hr (by rw [hlen, hlen])
+    have k₁ := c₁.1 "root_dir" (by simp [Generated.sigDirNodeFields])
+    have k₂ := c₂.1 "root_dir" (by simp [Generated.sigDirNodeFields])
+    have l₁ := c₁.1 "pattern" (by simp [Generated.sigDirNodeFields])
+    have l₂ := c₂.1 "pattern" (by simp [Generated.sigDirNodeFields])
+    simp [envDirNode, Covers] at k₁ k₂ l₁ l₂
+    exact ⟨optPath_render_inj sha hlen hS k₁ k₂ e₁, sha_utf8_inj sha hS l₁ l₂ e₂⟩
+  · rintro ⟨rfl, rfl⟩
+    simp only [sigDirNode, sigOf, rawKey_dirnode]
+
+/-- **sig_iff (PythonNode), up to the fingerprint of the tree path.** Two `PythonNode`s with node info
+have the same signature iff they agree on argument name, task name, task path and on
+`hash_value(tree path)`. -/
+theorem C12_sig_iff_pythonnode_hash (hlen : ∀ b, (sha b).length = 64) (S : Bytes → Prop) (hS : InjOn sha S)
+    (i₁ i₂ : NodeInfo)
+    (c₁ : SigCovers sha S Generated.sigPythonNodeFields (envNodeInfo i₁))
+    (c₂ : SigCovers sha S Generated.sigPythonNodeFields (envNodeInfo i₂)) :
+    sigPythonNode sha (some i₁) = sigPythonNode sha (some i₂) ↔
+      i₁.argName = i₂.argName ∧ hashValue sha (.tuple i₁.treePath) = hashValue sha (.tuple i₂.treePath) ∧
+      i₁.taskName = i₂.taskName ∧ i₁.taskPath = i₂.taskPath := by
+  constructor
+  · intro h
+    simp only [sigPythonNode, sigOf] at h
+    have hr := utf8_inj (hS _ _ c₁.2 c₂.2 h)
+    rw [rawKey_python, rawKey_python] at hr
+    obtain ⟨e₁, hr⟩ := List.append_inj hr (by rw [hlen, hlen])
+    obtain ⟨e₂, hr⟩ := List.append_inj hr (by simp [hashValue, HV.render, hlen])
+    obtain ⟨e₃, e₄⟩ := List.append_inj hr (by rw [hlen, hlen])
+    have a₁ := c₁.1 "arg_name" (by simp [Generated.sigPythonNodeFields])
+    have a₂ := c₂.1 "arg_name" (by simp [Generated.sigPythonNodeFields])
+    have t₁ := c₁.1 "task_name" (by simp [Generated.sigPythonNodeFields])
+    have t₂ := c₂.1 "task_name" (by simp [Generated.sigPythonNodeFields])
+    have q₁ := c₁.1 "task_path" (by simp [Generated.sigPythonNodeFields])
+    have q₂ := c₂.1 "task_path" (by simp [Generated.sigPythonNodeFields])
+    simp [envNodeInfo, Covers] at a₁ a₂ t₁ t₂ q₁ q₂
+    refine ⟨sha_utf8_inj sha hS a₁ a₂ e₁, ?_, sha_utf8_inj sha hS t₁ t₂ e₃,
+      optPath_render_inj sha hlen hS q₁ q₂ e₄⟩
+    simpa [hashValue, HV.render] using e₂
+  · rintro ⟨h₁, h₂, h₃, h₄⟩
+    simp only [sigPythonNode, sigOf, rawKey_python, h₁, h₂, h₃, h₄]
+
+/-- **sig_iff (PythonNode), partial.** Outside the F3 class — the two tree paths have the same shape and
+are fixed width — two `PythonNode`s share a signature iff they sit at the same argument, the same
+position (up to what Python cannot tell apart), in the same task. -/
+theorem C12_sig_iff_pythonnode_partial (hlen : ∀ b, (sha b).length = 64) (S : Bytes → Prop)
+    (hS : InjOn sha S) (i₁ i₂ : NodeInfo)
+    (c₁ : SigCovers sha S Generated.sigPythonNodeFields (envNodeInfo i₁))
+    (c₂ : SigCovers sha S Generated.sigPythonNodeFields (envNodeInfo i₂))
+    (hs : SameShapeL i₁.treePath i₂.treePath) (hw : WidthOKL i₁.treePath i₂.treePath) :
+    sigPythonNode sha (some i₁) = sigPythonNode sha (some i₂) ↔
+      i₁.argName = i₂.argName ∧ PyEqHL i₁.treePath i₂.treePath ∧
+      i₁.taskName = i₂.taskName ∧ i₁.taskPath = i₂.taskPath := by
+  rw [C12_sig_iff_pythonnode_hash sha hlen S hS i₁ i₂ c₁ c₂]
+  have p₁ := c₁.1 "path" (by simp [Generated.sigPythonNodeFields])
+  have p₂ := c₂.1 "path" (by simp [Generated.sigPythonNodeFields])
+  simp [envNodeInfo] at p₁ p₂
+  constructor
+  · rintro ⟨h₁, h₂, h₃, h₄⟩
+    exact ⟨h₁, hashValue_inj_aux sha hlen S hS (.tuple i₁.treePath) (.tuple i₂.treePath) hs hw p₁ p₂ h₂, h₃, h₄⟩
+  · rintro ⟨h₁, h₂, h₃, h₄⟩
+    exact ⟨h₁, hashValue_resp sha (.tuple i₁.treePath) (.tuple i₂.treePath) h₂, h₃, h₄⟩
+
+/-- **sig_iff (PythonNode)** at full strength (no width condition). FALSE of the current code: inherits F3. -/
+def C12_sig_pythonnode_full : Prop :=
+  ∀ (sha : Bytes → Str), (∀ b, (sha b).length = 64) → ∀ (S : Bytes → Prop), InjOn sha S →
+    ∀ i₁ i₂ : NodeInfo, SigCovers sha S Generated.sigPythonNodeFields (envNodeInfo i₁) →
+      SigCovers sha S Generated.sigPythonNodeFields (envNodeInfo i₂) →
+      SameShapeL i₁.treePath i₂.treePath →
+      (sigPythonNode sha (some i₁) = sigPythonNode sha (some i₂) ↔
+        i₁.argName = i₂.argName ∧ PyEqHL i₁.treePath i₂.treePath ∧
+        i₁.taskName = i₂.taskName ∧ i₁.taskPath = i₂.taskPath)
+
+/-- toy digest used only to refute: two values, told apart on the one byte string that matters. -/
+private def toySha (x : Bytes) : Str := if x = [49, 50, 51] then List.replicate 64 '0' else List.replicate 64 '1'
+
+theorem C12_sig_pythonnode_full_false : ¬ C12_sig_pythonnode_full := by
+  intro hfull
+  let i₁ : NodeInfo := ⟨"123".toList, [.int 1, .int 23], "123".toList, none⟩
+  let i₂ : NodeInfo := ⟨"123".toList, [.int 12, .int 3], "123".toList, none⟩
+  let B : Bytes := utf8 (rawKey toySha Generated.sigPythonNodeFields (envNodeInfo i₁))
+  let S : Bytes → Prop := fun x => x = [49, 50, 51] ∨ x = B
+  have hB : B ≠ [49, 50, 51] := by decide
+  have hB2 : utf8 (rawKey toySha Generated.sigPythonNodeFields (envNodeInfo i₂)) = B := by
+    simp only [B, rawKey_python, i₁, i₂, C12_hash_collision_witness]
+  have hS : InjOn toySha S := by
+    intro x y hx hy h
+    rcases hx with rfl | rfl <;> rcases hy with rfl | rfl
+    · rfl
+    · exact absurd h (by simp [toySha, hB])
+    · exact absurd h (by simp [toySha, hB])
+    · rfl
+  have hlen : ∀ b, (toySha b).length = 64 := by intro b; unfold toySha; split <;> simp
+  have c₁ : SigCovers toySha S Generated.sigPythonNodeFields (envNodeInfo i₁) := by
+    refine ⟨?_, Or.inr rfl⟩
+    intro f hf
+    simp only [Generated.sigPythonNodeFields, List.mem_cons, List.not_mem_nil, or_false] at hf
+    rcases hf with rfl | rfl | rfl | rfl <;> simp [envNodeInfo, Covers, CoversL, optPath, S, i₁] <;> decide
+  have c₂ : SigCovers toySha S Generated.sigPythonNodeFields (envNodeInfo i₂) := by
+    refine ⟨?_, Or.inr hB2⟩
+    intro f hf
+    simp only [Generated.sigPythonNodeFields, List.mem_cons, List.not_mem_nil, or_false] at hf
+    rcases hf with rfl | rfl | rfl | rfl <;> simp [envNodeInfo, Covers, CoversL, optPath, S, i₂] <;> decide
+  have key := (hfull toySha hlen S hS i₁ i₂ c₁ c₂ (by simp [i₁, i₂, SameShapeL, SameShape, PyVal.kind])).1
+    (by simp only [sigPythonNode, sigOf, rawKey_python, i₁, i₂, C12_hash_collision_witness])
+  have := key.2.1
+  simp only [i₁, i₂, PyEqHL, PyEqH, PyVal.kind, PyVal.numHash, true_and, and_true] at this
+  exact absurd this.1 (by decide)
+
+/-! ## `state()` of files and the `hash_path` memo -/
+
+/-- **state_missing.** A missing file has no state (`_get_state` returns `None`); the memo is untouched. -/
+theorem C12_state_missing (memo : Memo) (p : Str) :
+    stateOfFile sha md5 memo p none = (memo, none) := rfl
+
+/-- **state_content_full** — the property at full strength: whatever `state()` calls happened before
+(any reachable memo), the state of an existing file is the digest of its *current* bytes.
+FALSE of the current code (F4), see `C12_state_content_full_false`. -/
+def C12_state_content_full : Prop :=
+  ∀ (sha md5 : Bytes → Str) (memo : Memo), Reachable sha md5 memo →
+    ∀ (p : Str) (mh : Int) (c : Bytes), (stateOfFile sha md5 memo p (some (mh, c))).2 = some (sha c)
+
+/-- **F4 (stale_after_restore).** For *every* `sha`/`md5`: once a file was seen with bytes `c₁` under
+(path, mtime), a later `state()` under the same (path, mtime) returns the digest of `c₁`, whatever the
+bytes are now. -/
+theorem C12_stale_after_restore (p : Str) (mh : Int) (c₁ c₂ : Bytes) :
+    (stateOfFile sha md5 (stateOfFile sha md5 {} p (some (mh, c₁))).1 p (some (mh, c₂))).2
+      = some (sha c₁) := by
+  simp [stateOfFile_some, Memo.get_empty, Memo.get_insert]
+
+theorem C12_state_content_full_false : ¬ C12_state_content_full := by
+  intro hfull
+  let sha : Bytes → Str := fun b => b.map (fun x => Char.ofNat x.toNat)
+  have h := hfull sha sha _ (Reachable.step Reachable.empty [] (some (0, [1]))) [] 0 [2]
+  rw [C12_stale_after_restore] at h
+  exact absurd h (by decide)
+
+/-- **state_content_partial.** If the memo is coherent with the file system, the state of an existing
+file is the digest of its current bytes … -/
+theorem C12_state_content_partial (memo : Memo) (W : World) (hc : MemoCoherent sha md5 memo W)
+    (p : Str) (mh : Int) (c : Bytes) (hp : W p = some (mh, c)) :
+    (stateOfFile sha md5 memo p (W p)).2 = some (sha c) := by
+  rw [hp, stateOfFile_some]
+  cases hg : memo.get (memoKey sha md5 p mh) with
+  | none => rfl
+  | some v => simp only; rw [hc p mh c v hp hg]
+
+/-- **state_indep.** … hence independent of the modification time and of the spelling of the path:
+two existing files (or one file under two spellings / two mtimes) with the same bytes have the same state. -/
+theorem C12_state_indep (memo memo' : Memo) (W : World) (hc : MemoCoherent sha md5 memo W)
+    (hc' : MemoCoherent sha md5 memo' W) (p q : Str) (mh mh' : Int) (c : Bytes)
+    (hp : W p = some (mh, c)) (hq : W q = some (mh', c)) :
+    (stateOfFile sha md5 memo p (W p)).2 = (stateOfFile sha md5 memo' q (W q)).2 := by
+  rw [C12_state_content_partial sha md5 memo W hc p mh c hp,
+      C12_state_content_partial sha md5 memo' W hc' q mh' c hq]
+
+/-- **state_sep.** Different bytes, different state (coherent memo, `sha` collision-free on the two contents). -/
+theorem C12_state_sep (S : Bytes → Prop) (hS : InjOn sha S) (memo memo' : Memo) (W : World)
+    (hc : MemoCoherent sha md5 memo W) (hc' : MemoCoherent sha md5 memo' W)
+    (p q : Str) (mh mh' : Int) (c c' : Bytes)
+    (hp : W p = some (mh, c)) (hq : W q = some (mh', c')) (s : S c) (s' : S c') (hne : c ≠ c') :
+    (stateOfFile sha md5 memo p (W p)).2 ≠ (stateOfFile sha md5 memo' q (W q)).2 := by
+  rw [C12_state_content_partial sha md5 memo W hc p mh c hp,
+      C12_state_content_partial sha md5 memo' W hc' q mh' c' hq]
+  intro h
+  exact hne (hS c c' s s' (Option.some.inj h))
+
+/-- **memo_coherent_nil.** A fresh process (empty memo) is coherent with every file system. -/
+theorem C12_memo_coherent_nil (W : World) : MemoCoherent sha md5 {} W := by
+  intro p mh c v _ h
+  simp [Memo.get_empty] at h
+
+/-- **memo_preserved (state step).** A `state()` call keeps the memo coherent, provided `sha`/`md5` do not
+collide on the paths and memo keys of the files that exist (so that distinct (path, mtime) pairs have
+distinct keys). This is the only engine step that writes the memo. -/
+theorem C12_memo_preserved_state (hlen : ∀ b, (sha b).length = 64) (S S₂ : Bytes → Prop)
+    (hS : InjOn sha S) (hS₂ : InjOn md5 S₂) (memo : Memo) (W : World)
+    (hcov : ∀ q mh c, W q = some (mh, c) →
+      S (utf8 q) ∧ S₂ (utf8 (rawKey sha Generated.memoKeyFields (envMemo q mh))))
+    (hc : MemoCoherent sha md5 memo W) (p : Str) :
+    MemoCoherent sha md5 (stateOfFile sha md5 memo p (W p)).1 W := by
+  cases hp : W p with
+  | none => exact hc
+  | some f =>
+    obtain ⟨mh, c⟩ := f
+    rw [stateOfFile_some]
+    cases hg : memo.get (memoKey sha md5 p mh) with
+    | some v => exact hc
+    | none =>
+      intro q mh' c' v hq hv
+      simp only [Memo.get_insert] at hv
+      split at hv
+      · next hk =>
+        obtain ⟨k₁, k₂⟩ := hcov p mh c hp
+        obtain ⟨l₁, l₂⟩ := hcov q mh' c' hq
+        obtain ⟨rfl, rfl⟩ := memoKey_inj sha md5 hlen S S₂ hS hS₂ k₁ l₁ k₂ l₂ hk
+        rw [hp] at hq
+        simp only [Option.some.injEq, Prod.mk.injEq, true_and] at hq
+        rw [← hq]; exact (Option.some.inj hv).symm
+      · exact hc q mh' c' v hq hv
+
+/-- **memo_preserved (edit).** An honest edit of the file system — every file that differs from before
+carries a (path, mtime) pair the memo has no entry for, e.g. because the clock moved on — keeps the
+memo coherent.  F4 is exactly an edit that is not honest (`os.utime` back to a seen mtime). -/
+theorem C12_memo_preserved_edit (memo : Memo) (W W' : World) (hc : MemoCoherent sha md5 memo W)
+    (he : HonestEdit sha md5 memo W W') : MemoCoherent sha md5 memo W' := by
+  intro p mh c v hp hv
+  rcases he p mh c hp with h | h
+  · exact hc p mh c v h hv
+  · rw [h] at hv; exact absurd hv (by simp)
+
+/-- **memo_preserved (history).** Along any history of `state()` calls and honest edits that starts
+with a coherent memo (e.g. a fresh process), every state returned for an existing file is the digest
+of the bytes the file has at that moment — independent of mtimes and spellings. -/
+theorem C12_state_content_history (hlen : ∀ b, (sha b).length = 64) (S S₂ : Bytes → Prop)
+    (hS : InjOn sha S) (hS₂ : InjOn md5 S₂) (events : List Event) :
+    ∀ (memo : Memo) (W : World), MemoCoherent sha md5 memo W → CovHist sha S S₂ W events →
+      Honest sha md5 memo W events → AllCorrect sha md5 memo W events := by
+  induction events with
+  | nil => intros; trivial
+  | cons e es ih =>
+    intro memo W hc hcov hh
+    cases e with
+    | edit W' =>
+      simp only [CovHist, Honest, AllCorrect] at *
+      exact ih memo W' (C12_memo_preserved_edit sha md5 memo W W' hc hh.1) hcov.2 hh.2
+    | state p =>
+      simp only [CovHist, Honest, AllCorrect] at *
+      refine ⟨fun mh c hp => C12_state_content_partial sha md5 memo W hc p mh c hp, ?_⟩
+      exact ih _ W (C12_memo_preserved_state sha md5 hlen S S₂ hS hS₂ memo W (covHist_head sha S S₂ W es hcov) hc p) hcov hh
+
 /-! ## CPython's `hash(int)` -/
 
 /-- **pyHashInt_range.** `hash(i)` lies strictly between ∓(2^61 - 1) and is never -1. -/
